@@ -155,6 +155,10 @@ class AsyncWorld:
                 task = loop.start(self.gw.stop())
                 if not task.done():
                     obs.notes.append("stop() did not complete")
+                elif task.cancelled():
+                    self.stop_exc = "CancelledError"
+                    obs.exc = {"type": "CancelledError", "text": "stop() ended with CancelledError", "frames": [], "site": "task.py:stop"}
+                    obs.where = "stop"
                 elif task.exception() is not None:
                     self.stop_exc = task.exception()
                     obs.exc = exc_info(task.exception())
